@@ -374,7 +374,29 @@ def _one(x, seen, pending, info):
         pending[x['label']] = pending.get(x['label'], 0) + 1
 
 
+def expected_numbers(objs):
+    """The number LaTeX's article class prints for each generated object (sequential counters; subsections
+    numbered within the current section; every generated enumerate has one item)."""
+    n = {'section': 0, 'subsection': 0, 'equation': 0, 'figure': 0, 'table': 0, 'theorem': 0}
+    out = {}
+    for o in objs:
+        k = o['kind']
+        if k == 'item':
+            out[o['m']] = '1'
+            continue
+        n[k] += 1
+        if k == 'section':
+            n['subsection'] = 0
+            out[o['m']] = str(n[k])
+        elif k == 'subsection':
+            out[o['m']] = '%d.%d' % (n['section'], n[k])
+        else:
+            out[o['m']] = str(n[k])
+    return out
+
+
 def _judge(tr, p, out, ids, extra, objs, refs, expected, label_of):
+    numbers = expected_numbers(objs) if tr == 'doc' else {}
     for x in refs:
         d = out.get(x['m'])
         if d is None:
@@ -387,6 +409,10 @@ def _judge(tr, p, out, ids, extra, objs, refs, expected, label_of):
                 return {'sig': 'C09|target|%s|%s' % (cls, tr), 'detail': {'ref': x, 'order': p, 'expected_object': exp, 'got': d}}
             if d['target_id'] != x['label']:
                 return {'sig': 'C09|target|id|%s' % tr, 'detail': {'ref': x, 'order': p, 'got': d}}
+            # "its printed number is the object's number"
+            if tr == 'doc' and d.get('number') != numbers.get(exp):
+                kind = [o['kind'] for o in objs if o['m'] == exp][0]
+                return {'sig': 'C09|number|%s' % kind, 'detail': {'ref': x, 'order': p, 'object': exp, 'expected_number': numbers.get(exp), 'got': d}}
         else:
             # R2 a dangling reference resolves to no object at all
             if d['is_object'] or d['has_parent']:
